@@ -234,3 +234,16 @@ def cleanup_scratch():
     for name in os.listdir(d) if os.path.isdir(d) else []:
         if name.split('-')[0].split('_')[0] == str(os.getpid()):
             shutil.rmtree(os.path.join(d, name), ignore_errors=True)
+
+
+def workdir():
+    """per-worker scratch directory holding the small binary files include_bytes items refer to; becomes the cwd"""
+    main = os.getppid() if mp.current_process().name != 'MainProcess' else os.getpid()
+    d = os.path.join(VERIF, '.scratch', '%d_%d' % (main, os.getpid()))
+    if not os.path.isdir(d):
+        os.makedirs(d, exist_ok=True)
+        for n in (1, 3, 5, 8):
+            with open(os.path.join(d, 'blob%d.bin' % n), 'wb') as f:
+                f.write(bytes((0xa0 + i) & 0xff for i in range(n)))
+    os.chdir(d)
+    return d
